@@ -196,8 +196,18 @@ def _hmc_posterior_args(prog):
                 elif d is not None and arg.id == "start":
                     # the constructor re-binds `start` through type conversions only
                     convs = [s for s in ast.walk(fn) if isinstance(s, ast.Assign) and U(s.targets[0]) == "start"]
-                    ok = all(isinstance(s.value, ast.IfExp) and not any(isinstance(n, ast.BinOp) for n in ast.walk(s.value))
-                             for s in convs)
+                    # conversions only: array(start) / start.astype(...) / a conditional expression of those - no arithmetic
+                    def conv_only(v):
+                        if isinstance(v, ast.IfExp):
+                            return conv_only(v.body) and conv_only(v.orelse)
+                        if isinstance(v, ast.Name):
+                            return v.id == "start"
+                        if isinstance(v, ast.Call):
+                            f_ = U(v.func)
+                            return (f_ in ("array", "asarray", "atleast_1d") and v.args and conv_only(v.args[0])) or \
+                                (isinstance(v.func, ast.Attribute) and v.func.attr in ("astype", "copy") and conv_only(v.func.value))
+                        return False
+                    ok = all(conv_only(s.value) for s in convs)
                     why = "validated start (type conversions only)"
                 elif d is not None and isinstance(d.value, ast.Call) and isinstance(d.value.func, ast.Attribute) \
                         and d.value.func.attr == "copy" and U(d.value.func.value) in params:
@@ -512,8 +522,15 @@ def _limit_fsm(prog):
 
     # ranges of the proposals, read from the code
     bp = pc.methods["boundary_proposal"]
-    honours_nn = any(isinstance(n, ast.IfExp) and "_non_negative" in U(n.test)
-                     and U(n.body).replace(" ", "") in ("max(self.lower,0.0)", "max(0.0,self.lower)", "max(self.lower,0)")
+    # the effective lower edge is max(lower, 0) when non-negativity is in force - as a conditional expression or as an if / else
+    def nn_arm(n):
+        if isinstance(n, ast.IfExp) and "_non_negative" in U(n.test):
+            return n.body
+        if isinstance(n, ast.If) and "_non_negative" in U(n.test):
+            a_ = [s_ for s_ in n.body if isinstance(s_, ast.Assign)]
+            return a_[0].value if len(a_) == 1 else None
+        return None
+    honours_nn = any(nn_arm(n) is not None and any(pmatch(nn_arm(n), pt) is not None for pt in ("max(self.lower, 0.0)", "max(0.0, self.lower)"))
                      for n in ast.walk(bp))
     ap = pc.methods["abs_proposal"]
     abs_nonneg = any(isinstance(r, ast.Return) and isinstance(r.value, ast.Call) and U(r.value.func) == "abs"
